@@ -113,6 +113,11 @@ func (cropOW *CropOverwrite) OverwriteCropParameters(cropFile string, g *GlobalV
 				stageIdx := stage - 1
 				g.TSUM[stageIdx] = value
 			}
+			// keep the derived sum of all stages consistent with the edited values
+			l.tendsum = 0
+			for i := 0; i < l.NRENTW; i++ {
+				l.tendsum = l.tendsum + g.TSUM[i]
+			}
 		} else if key == "BAS" {
 			for stage, value := range stages {
 				stageIdx := stage - 1
